@@ -120,6 +120,28 @@ func runC17(p *core.Program, r *core.Report) {
 			}
 		}
 	}
+	// the group is entered through Do only: Forget drops a flight that may still be
+	// running (the next caller starts a second execution next to it), DoChan hands
+	// out results without the caller waiting inside the flight
+	nGroupCalls := 0
+	for _, g := range p.Funcs {
+		for _, in := range path.Instrs(g) {
+			ci, ok := in.(ssa.CallInstruction)
+			if !ok {
+				continue
+			}
+			callee := ci.Common().StaticCallee()
+			if callee == nil || callee.Signature.Recv() == nil || callee.Pkg == nil || callee.Pkg.Pkg.Path() != sfPkg {
+				continue
+			}
+			nGroupCalls++
+			okM := callee.Name() == "Do"
+			r.Obligation("AG1", okM, map[string]any{"rule": "AG1", "what": "flight group used through Do only", "method": callee.Name(), "in": p.FuncName(g)})
+			if !okM {
+				r.Violation(core.Diag{Rule: "AG1", Func: p.FuncName(g), Object: "singleflight." + callee.Name(), Pos: p.InstrPos(in), Reason: "the flight group is used through " + callee.Name() + ": only Do keeps one execution per key (Forget drops a flight that may still be running, so the next caller starts a second execution beside it)"})
+			}
+		}
+	}
 	// key argument
 	okKey := isKey(do.Call.Args[1])
 	r.Obligation("PV2", okKey, map[string]any{"rule": "PV2", "what": "flight key is the caller's key", "ok": okKey})
@@ -370,6 +392,7 @@ func runC17(p *core.Program, r *core.Report) {
 	res := runLockset(p)
 	emitLockset(res, r, map[string]bool{"AT1": true, "AT2": true}, map[string]bool{"cache": true})
 	expiryAgreement(p, r, p.FuncsInFiles("cache/cache.go"))
+	cacheSetRule(p, r)
 	r.Floor("AG1", 3)
 	r.Floor("PT3", 2)
 	r.Floor("PV2", 3)
